@@ -425,10 +425,45 @@ func maxOf(v []*big.Int) *big.Int {
 	return m
 }
 
-// DefaultFieldMin is the per-configuration vacuity threshold of each Stage A
-// class (about 90% of the instance count measured on the unchanged tree, the
-// smaller of the two back ends).
-var DefaultFieldMin = map[string]int{}
+// FieldMinPerConfig returns, per obligation class, about 90% of the number
+// of Stage A instances measured on the unchanged tree in one configuration
+// (vacuity thresholds; a property sums them over the configurations it runs).
+//
+// measured:      arith  sub  wide  conv  signed  post  closure  control  complete
+// purego/arm64     125   14   143    32       2    52       17        1        22
+// f32/f32pure/386 1497   21     0   162       2    46       14        1        21
+// amd64 (Go part)   90   11    57    32       1    40       13        1        18
+func FieldMinPerConfig(cfgID string) map[string]int {
+	switch cfgID {
+	case "purego", "arm64":
+		return map[string]int{ClsArith: 112, ClsSub: 12, ClsWide: 128, ClsConv: 28, ClsSigned: 1, ClsPost: 46, ClsClosure: 15, ClsControl: 1, ClsComplete: 19}
+	case "f32", "f32pure", "386":
+		return map[string]int{ClsArith: 1347, ClsSub: 18, ClsWide: 0, ClsConv: 145, ClsSigned: 1, ClsPost: 41, ClsClosure: 12, ClsControl: 1, ClsComplete: 18}
+	case "amd64":
+		return map[string]int{ClsArith: 81, ClsSub: 9, ClsWide: 51, ClsConv: 28, ClsSigned: 1, ClsPost: 36, ClsClosure: 11, ClsControl: 1, ClsComplete: 16}
+	}
+	return map[string]int{}
+}
+
+// FieldMin sums FieldMinPerConfig over a list of configurations.
+func FieldMin(cfgIDs []string) map[string]int {
+	out := map[string]int{}
+	for _, id := range cfgIDs {
+		for c, n := range FieldMinPerConfig(id) {
+			out[c] += n
+		}
+	}
+	return out
+}
+
+// StageAClasses are the obligation classes of Stage A.
+var StageAClasses = []string{ClsArith, ClsSub, ClsWide, ClsConv, ClsSigned, ClsPost, ClsClosure, ClsControl, ClsComplete}
+
+// DeclareFieldRules declares the Stage A rules with vacuity thresholds
+// summed over the configurations the property is going to analyse.
+func DeclareFieldRules(run *report.Run, rulePrefix string, cfgIDs []string) {
+	NewRules(run, rulePrefix, StageAClasses, FieldMin(cfgIDs))
+}
 
 // CheckFieldStageA analyses every limb-level primitive of internal/field of
 // the loaded configuration under the documented headroom, records every
@@ -436,7 +471,10 @@ var DefaultFieldMin = map[string]int{}
 // and checks its closure.
 func CheckFieldStageA(run *report.Run, p *load.Program, rulePrefix string) []*PrimRow {
 	run.SetConfig(p.Cfg.ID)
-	rules := NewRules(run, rulePrefix, append(append([]string(nil), Classes...), ClsComplete), DefaultFieldMin)
+	// a property that runs several configurations declares the rules itself
+	// (DeclareFieldRules) with the summed thresholds; otherwise the
+	// thresholds of this configuration apply
+	rules := NewRules(run, rulePrefix, StageAClasses, FieldMinPerConfig(p.Cfg.ID))
 	be, err := resolveBackend(p)
 	if err != nil {
 		run.Fatal("[%s] E-RANGE: %v", p.Cfg.ID, err)
